@@ -87,6 +87,10 @@ def run_plan(plan, sched_seed=None, sched_replay=None):
 
     sim.probes['short_reads'] += sim.stats.get('short_reads', 0)
 
+    if run.connect_error is not None:
+        world.violation('connect-failed', 'connect() failed without any '
+                        'fault: %r' % (run.connect_error,))
+
     for err in run.open_errors:
         world.violation('open-failed', 'channel %d failed to open: %r' % err)
 
